@@ -302,7 +302,7 @@ func streamC16(r *Rand, n int, o *Out) {
 					sort.Slice(a, key(a))
 					sort.Slice(b, key(b))
 					if !eqLists(a, b) {
-						orc.Fail("C16", roundTripClass(orig), fmt.Sprintf("pairs %q became %q", orig, back), tokOf())
+						orc.Fail("C16", roundTripClassOf(orig, back), fmt.Sprintf("pairs %q became %q", orig, back), tokOf())
 					}
 				}
 			}
@@ -356,9 +356,11 @@ func streamC16(r *Rand, n int, o *Out) {
 				p := u.Pathname()
 				if strings.Contains(strings.TrimSuffix(p, "/"), "//") || (strings.HasSuffix(p, "//")) {
 					class := "collapse-leaves-empty-segment"
-					if ds := lastSegmentIsDot(in); ds {
+					// F14: the trailing dot segment appends an empty segment after the collapsed path — exactly one empty
+					// segment, at the very end. F14b: a file path holding a drive letter. Anything else is new.
+					if lastSegmentIsDot(in) && strings.HasSuffix(p, "//") && !strings.Contains(p[:len(p)-1], "//") {
 						class = "collapse-trailing-dot-segment"
-					} else if u.Scheme() == "file" {
+					} else if u.Scheme() == "file" && hasDriveSegment(p) {
 						class = "collapse-file-drive-letter"
 					}
 					orc.Fail("C16", class, "path "+q(p)+" still has an empty non-final segment", tokOf())
@@ -449,6 +451,16 @@ func streamC16(r *Rand, n int, o *Out) {
 		}
 		o.EmitHist("g", h)
 	}
+}
+
+// hasDriveSegment: some segment of the path is a normalized Windows drive letter ("C:")
+func hasDriveSegment(p string) bool {
+	for _, seg := range strings.Split(p, "/") {
+		if len(seg) == 2 && seg[1] == ':' && (seg[0]|0x20) >= 'a' && (seg[0]|0x20) <= 'z' {
+			return true
+		}
+	}
+	return false
 }
 
 func lastSegmentIsDot(in string) bool {
@@ -772,12 +784,20 @@ func checkIdem(h *Hist, p *Prof, in string, webGrammar bool) {
 	// F18 / F18b are about hosts, paths and queries that decode to delimiters: a second run that differs from the first
 	// ONLY in the fragment is not one of them
 	onlyFragment := err2 == nil && v.Href(true) == u.Href(true)
+	// F6 is about the host (second run rejected, or another host); F8 / F8b are about the query's serialization (the
+	// second run differs from the first in the query)
+	hostMatter := err2 != nil || v.Hostname() != u.Hostname()
+	queryMatter := err2 == nil && v.Search() != u.Search()
+	queryClass := "other"
+	if queryMatter {
+		queryClass = roundTripClassOf(spList(u), spList(v))
+	}
 	class := "other"
 	switch {
-	case hasAceLabel(u.Hostname()):
+	case hasAceLabel(u.Hostname()) && hostMatter:
 		class = "idn-host"
-	case (p.V.SortQuery != 0 || p.V.RepeatedPercentDecoding) && roundTripClass(spList(u)) != "other":
-		class = roundTripClass(spList(u))
+	case (p.V.SortQuery != 0 || p.V.RepeatedPercentDecoding) && queryClass != "other":
+		class = queryClass
 	case p.V.RepeatedPercentDecoding && !webGrammar && !u.IsSpecialScheme() && !onlyFragment:
 		class = "repeated-decoding-non-special"
 	case p.V.RepeatedPercentDecoding && !webGrammar && !onlyFragment:
